@@ -345,7 +345,8 @@ def main(tier, seed, replay=None):
     ck.sample(cases[-1])
     ck.assumptions += ['threads with separate SQLite connections stand for processes (same isolation); a single file-system call or SQL statement is atomic',
                        'one packer at a time, as the documentation requires']
-    return ck.finish()
+    import tracecheck as _tc
+    return ck.finish(search=_tc.crash_search(ck, ck.pid))
 
 
 if __name__ == '__main__':
